@@ -173,6 +173,7 @@ class Exec:
         self.stats = {'forks': 0, 'merges': 0}
         self.deref_hook = None   # (ex, st, Ptr) -> value: plain loads through pointers into a shared region
         self.store_hook = None   # (ex, st, Ptr, path, value): plain stores through such pointers
+        self.frame_ty = {}       # frame id -> {generic parameter name: concrete type} (set when a dyn call is dispatched)
         self.no_merge = []       # regexes of callee names whose return paths are kept separate
 
     # ------------------------------------------------------------------ helpers
@@ -228,8 +229,8 @@ class Exec:
             return v.f[step]
         if isinstance(v, Opaque):
             return Opaque('%s.%s' % (v.tag, step))
-        if isinstance(v, Dyn):
-            return self.proj1(st, v.val, step)
+        if isinstance(v, (Dyn, IteDyn)):
+            return v            # Box<dyn T> / Unique / NonNull wrappers are transparent: the value stays the fat pointer
         if v is None:
             raise EngineError('projection .%s of uninitialised value' % (step,))
         raise EngineError('field %r of %r' % (step, v))
@@ -242,6 +243,11 @@ class Exec:
             return ite(r.c, self.deref(st, r.a), self.deref(st, r.b))
         if isinstance(r, Dyn):
             return r.val if not isinstance(r.val, (Ref, IteRef)) else self.deref(st, r.val)
+        if isinstance(r, IteDyn):
+            v = self.deref(st, r.alts[-1][1])
+            for c, d in reversed(r.alts[:-1]):
+                v = ite(c, self.deref(st, d), v)
+            return v
         if isinstance(r, Opaque):
             return Opaque('*' + r.tag)
         if isinstance(r, Ptr):
@@ -700,6 +706,8 @@ class Exec:
                 return Ptr(inner.region, off)
             if isinstance(inner, Opaque):
                 return Opaque('&' + inner.tag)
+            if isinstance(inner, (Dyn, IteDyn)) and k == len(path) - 1:
+                return inner
             t = self.resolve_place(st, fr, place)
             if len(t) == 1:
                 return Ref(t[0][1], t[0][2], t[0][3])
@@ -856,7 +864,7 @@ class Exec:
         if isinstance(v, Struct) and all(z3.is_int_value(z3.simplify(x)) and z3.simplify(x).as_long() == 0 for x in v.f if x is not None):
             # zeroed byte array reinterpreted as a struct: all-zero value of that struct
             return self.zero_value(ty)
-        if isinstance(v, (Opaque, Ref, Ptr)):
+        if isinstance(v, (Opaque, Ref, Ptr, Dyn, IteDyn)):
             return v
         b = base_type_name(ty)
         if b in INTTY and isinstance(v, z3.ExprRef) and z3.is_int(v):
@@ -941,13 +949,15 @@ class Exec:
         return m.group(1).strip() if m else ''
 
     # ------------------------------------------------------------------ running bodies
-    def run_body(self, fn, args, st, fr=None, start='bb0', stop=(), top=False, init_locals=None):
+    def run_body(self, fn, args, st, fr=None, start='bb0', stop=(), top=False, init_locals=None, tybind=None):
         """execute fn from `start`; returns list of Outcome.  The frame's locals are removed from the
         outcome states unless top=True."""
         if fr is None:
             fr = self.new_frame()
         for p, a in zip(fn.params, args):
             st.mem[(fr, p)] = a
+        if tybind:
+            self.frame_ty[fr] = tybind
         if init_locals:
             for l, v in init_locals.items():
                 st.mem[(fr, l)] = v
@@ -1050,6 +1060,10 @@ class Exec:
             callee = callee.strip()
             # the callee expression itself may contain parentheses (fn pointers, closures): re-split at top level
             callee, argstr = self._split_call(t)
+            tb = self.frame_ty.get(fr)
+            if tb:
+                for gname, conc in tb.items():
+                    callee = re.sub(r'\b%s\b' % re.escape(gname), conc, callee)
             argv = [self.operand(a, st, fr) for a in split_top(argstr)] if argstr.strip() else []
             try:
                 outcomes = self.call(callee, argv, st, fr, fn)
@@ -1134,6 +1148,9 @@ class Exec:
         for rx, h in self.extra_builtins:
             if re.search(rx, callee):
                 return [(st, h(self, st, callee, argv, fn))]
+        dm = re.match(r'^<dyn (.+?) as (.+?)>::(\w+)$', strip_turbofish_tail(callee.strip()))
+        if dm and argv and isinstance(argv[0], (Dyn, IteDyn)):
+            return self.dyn_call(dm.group(2), dm.group(3), argv, st, fn)
         cands = self.prog.resolve(callee, len(argv))
         if len(cands) == 1:
             return self.inline(cands[0], argv, st)
@@ -1143,10 +1160,66 @@ class Exec:
                 return [(st, Opaque('havoc:' + strip_generics(callee)[-40:]))]
         raise EngineError('call %s from %s: %d candidates %s' % (callee, fn.name[-40:], len(cands), [c.name[-60:] for c in cands][:4]))
 
-    def inline(self, callee_fn, argv, st):
+    def dyn_call(self, trait, meth, argv, st, fn):
+        """virtual call: dispatch on the concrete type recorded by the unsizing cast"""
+        recv = argv[0]
+        alts = [(None, recv)] if isinstance(recv, Dyn) else list(recv.alts)
+        results = []
+        for cond, d in alts:
+            conc = d.ty
+            cands = self.prog.resolve('<%s as %s>::%s' % (conc, trait, meth), len(argv))
+            if len(cands) != 1:
+                raise EngineError('virtual call %s::%s on %s: %d implementations' % (trait, meth, conc, len(cands)))
+            f = cands[0]
+            info = self.prog.impl_info(f)
+            tybind = None
+            if info:
+                # bind the impl's generic parameters by matching `Name<T>` against the concrete `Name<Arg>`
+                gi = re.match(r'[\w:]+<(.+)>$', info[3].strip())
+                gc = re.match(r'[\w:]+<(.+)>$', conc.strip())
+                if gi:
+                    params = split_top(gi.group(1))
+                    if gc:
+                        concs = split_top(gc.group(1))
+                    else:
+                        dflt = self.prog.default_type_args(base_type_name(conc))
+                        concs = dflt if dflt else []
+                    if len(params) == len(concs):
+                        tybind = {p_: c_ for p_, c_ in zip(params, concs) if re.fullmatch(r'[A-Z]\w*', p_) and p_ != base_type_name(c_)}
+            s2 = st.fork() if cond is not None else st
+            if cond is not None:
+                s2.pc.append(cond)
+            outs = self.inline(f, [d] + list(argv[1:]), s2, tybind=tybind)
+            results += outs
+        if len(results) == 1 or isinstance(recv, Dyn):
+            return results
+        # merge the alternatives of a symbolic receiver back into one outcome when they left the same trace
+        if all(len(r[0].trace) == len(results[0][0].trace) and all(x is y for x, y in zip(r[0].trace, results[0][0].trace)) for r in results[1:]):
+            npc = len(st.pc)
+            conds = [z3.And(r[0].pc[npc:]) if len(r[0].pc) > npc else z3.BoolVal(True) for r in results]
+            val = results[-1][1]
+            for c, r in zip(reversed(conds[:-1]), reversed(results[:-1])):
+                val = ite(c, r[1], val)
+            mem = dict(results[-1][0].mem)
+            keys = set()
+            for r in results:
+                keys.update(r[0].mem.keys())
+            for k in keys:
+                vals = [r[0].mem.get(k) for r in results]
+                if all(same(vals[0], x) for x in vals[1:]):
+                    mem[k] = vals[0]; continue
+                v = vals[-1]
+                for c, x in zip(reversed(conds[:-1]), reversed(vals[:-1])):
+                    v = ite(c, x, v)
+                mem[k] = v
+            ns = State(mem, st.pc[:npc] + [z3.Or(conds)], results[0][0].trace, dict(st.visits))
+            return [(ns, val)]
+        return results
+
+    def inline(self, callee_fn, argv, st, tybind=None):
         npc = len(st.pc)
         base_trace = st.trace
-        outs = self.run_body(callee_fn, argv, st)
+        outs = self.run_body(callee_fn, argv, st, tybind=tybind)
         rets = [o for o in outs if o.kind == 'return']
         for o in outs:
             if o.kind == 'unwound':
